@@ -331,6 +331,21 @@ class Check:
             "wall_s": round(time.time() - self.t0, 2),
             "violations": getattr(self, "nviol", 0),
         }
+        # keys of the evidence schema keep their schema types whatever a property module put into chk.extra:
+        # a mistyped value moves to "<key>_detail"
+        cov = ev["coverage"]
+        typed = {"evaluations": int, "distinct_nontrivial": int, "states": int, "transitions": int,
+                 "traces_validated_against_impl": int, "obligations": int, "discharged": int, "programs": int,
+                 "disagreements_checked": int, "rule": str, "checker_cmd": str, "explanation": str,
+                 "exhaustive": bool, "samples": list, "trusted_base": list}
+        for key, ty in typed.items():
+            if key in cov and (not isinstance(cov[key], ty) or (ty is int and isinstance(cov[key], bool))):
+                cov[key + "_detail"] = cov.pop(key)
+                if key == "exhaustive":
+                    cov["exhaustive"] = bool(cov[key + "_detail"])
+        if not str(cov.get("checker_cmd", "")).strip():
+            cov["checker_cmd"] = f"make theories/Props/{self.pid}.vo && coqc theories/Props/{self.pid}.v (Print Assumptions)"
+        cov["trusted_base"] = [str(x) for x in cov.get("trusted_base", [])]
         (VERIF / "evidence").mkdir(exist_ok=True)
         (VERIF / "evidence" / f"{self.pid}.json").write_text(json.dumps(ev, indent=1, default=str))
         shutil.rmtree(self.tmp, ignore_errors=True)
